@@ -74,7 +74,8 @@ def gen_table(rng, theme):
     if theme != 'diag' and rng.random() < .3:
         t[':--plain'] = 'i'
     used = names[:n]
-    pats = [rng.choice(['%s', 'div %s', '%s, b', ':is(%s, i)', ':not(%s)', 'p%s']) % rng.choice(used) for _ in range(3)]
+    pats = [rng.choice(['%s', 'div %s', '%s, b', ':is(%s, i)', ':not(%s)', 'p%s', 'section.aaaaaaaaaaaaaaaaaaaaaaaa > p%s', 'a,\n\n  b, /* c */ i%s']) % rng.choice(used)
+            for _ in range(3)]
     if len(used) > 1:
         pats.append('%s %s' % (used[-1], used[0]))
     return t, pats
@@ -124,6 +125,24 @@ def run_unit(u, sig):
             sv.purge()
         if any(r[0] == 'budget' for r in ref.values()):
             continue
+        if theme == 'diag':
+            # a diagnostic points into the text it quotes: (line, col) must exist in the pattern or in one of the custom definitions,
+            # and the quoted context must show that very line
+            for p in pats:
+                r0 = ref[p]
+                if r0[0] != 'err' or r0[3] is None:
+                    continue
+                bump('diagnostics_located')
+                line, col, ctx = r0[3], r0[4], r0[5] or ''
+                fits = False
+                for t in [p] + list(rtable.values()):
+                    ls = t.split('\n')
+                    if 1 <= line <= len(ls) and 1 <= col <= len(ls[line - 1]) + 1 and ls[line - 1] in ctx:
+                        fits = True
+                        break
+                if not fits:
+                    viol('compile(%r, custom=%r): the diagnostic says line %d, column %d and quotes %r - no text involved has such a position on the quoted line' % (
+                        p, rtable, line, col, ctx[:120]), p, rtable, 'position')
         # reference selection, computed before any fault
         refsel = {}
         for p in pats:
